@@ -267,6 +267,13 @@ func confirmAndReport(r *ev.Run, v explore.Violation) {
 				found = true
 			}
 		}
+		if !found && strings.Contains(v.Key, "leak/timer/") {
+			// The tail of a teardown runs in the free-running drain; a
+			// timer observation that depends on it is not reported
+			// unless it reproduces.
+			r.Set("unconfirmed_timer_candidates", 1)
+			return
+		}
 		if !found || (i > 0 && o.Exec.Hash != hash) {
 			ev.Framework("violation %s of %s does not reproduce deterministically on replay %d (found=%v hash %x vs %x) choices=%v",
 				v.Key, v.Scenario, i, found, o.Exec.Hash, hash, v.Choices)
